@@ -10,7 +10,7 @@ Lemma sig_eq_dec : forall a b : sig, {a = b} + {a <> b}.
 Proof.
   decide equality; try apply ty_eq_dec; try apply Pos.eq_dec.
   - apply list_eq_dec. apply ty_eq_dec.
-  - decide equality. decide equality; apply Pos.eq_dec.
+  - apply list_eq_dec. decide equality; apply Pos.eq_dec.
 Defined.
 
 Definition osig_eqb (a b : option sig) : bool :=
@@ -87,9 +87,23 @@ Section P.
     rewrite H2. reflexivity.
   Qed.
 
+  Lemma ok_first_some : forall A B (f : A -> R (option B)) l, (forall a, ok (f a)) -> ok (first_some f l).
+  Proof.
+    intros A B f l Hf. induction l as [|a r IH]; simpl; [apply ok_ret|].
+    apply ok_bind; [apply Hf|]. intros [b|]; [apply ok_ret | exact IH].
+  Qed.
+
+  Lemma ok_any_true : forall A (f : A -> R bool) l, (forall a, ok (f a)) -> ok (any_true f l).
+  Proof.
+    intros A f l Hf. induction l as [|a r IH]; simpl; [apply ok_ret|].
+    apply ok_bind; [apply Hf|]. intros [|]; [apply ok_ret | exact IH].
+  Qed.
+
   Ltac ok_step :=
     match goal with
     | |- ok (ret _) => apply ok_ret
+    | |- ok (first_some _ _) => apply ok_first_some; intro
+    | |- ok (any_true _ _) => apply ok_any_true; intro
     | |- ok (read _) => apply ok_read
     | |- ok (bind _ _) => apply ok_bind; [|intro]
     | |- ok (match ?x with _ => _ end) => destruct x
@@ -141,9 +155,15 @@ Section P.
     induction ms as [|[a f] r IH]; simpl; ok_auto.
   Qed.
 
+  Lemma ok_check_bases : forall ms bs, ok (check_bases sym FUEL ms bs).
+  Proof.
+    intros ms bs. pose proof (ok_resolve FUEL) as Hr. pose proof ok_check_overrides as Ho.
+    induction bs as [|[bm bc] r IH]; simpl; ok_auto.
+  Qed.
+
   Lemma ok_check_classes : forall cs, ok (check_classes cs).
   Proof.
-    intros cs. pose proof (ok_resolve FUEL) as Hr. pose proof ok_check_overrides as Ho.
+    intros cs. pose proof ok_check_bases as Hb.
     induction cs as [|[c cd] r IH]; simpl; ok_auto.
   Qed.
 
